@@ -41,6 +41,11 @@ def readAll : List SEntry → SDb
   | [] => []
   | e :: r => e :: (readAll r).filter fun q => !keq q.key e.key
 
+/-- the keys reported as repeated: every entry whose key (up to case) occurred before -/
+def repeatedFrom (seen : List Str) : List SEntry → List Str
+  | [] => []
+  | e :: r => if seen.any (keq e.key) then e.key :: repeatedFrom seen r else repeatedFrom (e.key :: seen) r
+
 /-! ### C05 — which keys, in which order -/
 
 /-- `*` replaced in place by all database keys in database order -/
@@ -106,12 +111,13 @@ def present (db : SDb) (l : List Str) : List Str := l.filter fun c => (find db c
 everything (BibTeX documents the same restriction): every parent referenced by a cited entry
 is itself cited, or absent from the file altogether, or occurs in the file after the (first,
 i.e. effective) entry of one of the cited children that reference it.  `file` is the raw file. -/
-def laterOccurs (file : List SEntry) (l : List Str) (x : Str) : Bool :=
-  match file with
-  | [] => false
-  | e :: r =>
-    (cited l e.key && (match e.crossref with | some y => keq y x | none => false) && r.any (fun q => keq q.key x))
-    || laterOccurs (r.filter fun q => !keq q.key e.key) l x
+def laterOccurs (l : List Str) (x : Str) : (seen : List Str) → (file : List SEntry) → Bool
+  | _, [] => false
+  | seen, e :: r =>
+    (!seen.any (keq e.key) && cited l e.key
+      && (match e.crossref with | some y => keq y x | none => false)
+      && r.any (fun q => keq q.key x))
+    || laterOccurs l x (e.key :: seen) r
 
 def proviso (file : List SEntry) (citations : List Str) : Bool :=
   citations.contains star ||
@@ -121,7 +127,7 @@ def proviso (file : List SEntry) (citations : List Str) : Bool :=
     | some e =>
       match e.crossref with
       | none => true
-      | some x => cited citations x || !(file.any fun q => keq q.key x) || laterOccurs file citations x
+      | some x => cited citations x || !(file.any fun q => keq q.key x) || laterOccurs citations x [] file
 
 /-! ### C14 — what a field lookup yields -/
 
